@@ -87,8 +87,48 @@ def tagged_positions(ctx, c, opts=None):
     ctx.count("tagged")
 
 
+def alpha_outside_oracle(ctx, c, out):
+    """the property's own formula, evaluated with the result's own df, db, splice losses and their variances (independent of
+    the gauge of a rank-deficient fit): outside the reference and matched locations alpha(x) is the inverse-variance weighted
+    time average of (I_B - I_F)/2 + (db - df)/2 + (TA_B(x) - TA_F(x))/2"""
+    if isinstance(out, tuple) or out is None:
+        return
+    ds, x, nt, nx, nta = c.ds, c.x, c.nt, c.nx, len(c.trans_att)
+    p = out["p_val"].values
+    v = np.diag(out["p_cov"].values)
+    fitted = set(fibre.ix_sec(c)) | {i for pr in fibre.match_pairs(c) for i in pr}
+    outside = [i for i in range(nx) if i not in fitted]
+    if not outside:
+        return
+    iF = np.log(ds.st.values / ds.ast.values)
+    iB = np.log(ds.rst.values / ds.rast.values)
+    vF = c.var_mats["st"] / ds.st.values**2 + c.var_mats["ast"] / ds.ast.values**2
+    vB = c.var_mats["rst"] / ds.rst.values**2 + c.var_mats["rast"] / ds.rast.values**2
+    cT = lambda a, d, j: 1 + 2 * nt + nx + j + nt * d + 2 * nt * a  # noqa: E731
+    A = (iB - iF) / 2 + (p[1 + nt:1 + 2 * nt] - p[1:1 + nt])[None, :] / 2
+    V = vF + vB + (v[1 + nt:1 + 2 * nt] + v[1:1 + nt])[None, :]
+    for a, s in enumerate(c.trans_att):
+        jf = [cT(a, 0, j) for j in range(nt)]
+        jb = [cT(a, 1, j) for j in range(nt)]
+        up = x >= s
+        A[up] -= p[jf][None, :] / 2
+        A[~up] += p[jb][None, :] / 2
+        V[up] += v[jf][None, :]
+        V[~up] += v[jb][None, :]
+    want = (A / V).sum(axis=1) / (1 / V).sum(axis=1)
+    got = p[1 + 2 * nt:1 + 2 * nt + nx]
+    sd = np.sqrt(1 / (1 / (V / 2)).sum(axis=1))
+    bad = [i for i in outside if abs(got[i] - want[i]) > 1e-6 * sd[i] + 1e-9 * abs(want[i]) + 1e-12]
+    if bad:
+        i = bad[0]
+        ctx.fail(f"alpha at location {i} (x={x[i]}, outside the reference sections) is {got[i]!r}, the weighted time average of "
+                 f"(I_B-I_F)/2 + (db-df)/2 + splice terms with the result's own parameters is {want[i]!r}", calib.case_desc(c))
+    ctx.count("alpha-outside oracle: locations", len(outside))
+
+
 def run_one(ctx, c):
     out = calib.check_wls_case(ctx, c, {})
+    alpha_outside_oracle(ctx, c, out)
     nsec = len(fibre.ix_sec(c))
     ctx.case(sig=[c.nx, c.nt, len(c.trans_att), len(c.sections), sum(len(v) for _, v in c.sections), len(c.matching), c.var_kind, c.span],
              nontrivial=c.noise > 0 and c.nt > 1 and nsec > 2, sample=calib.case_desc(c))
@@ -96,9 +136,19 @@ def run_one(ctx, c):
         ctx.count(k)
 
 
+def lead_in_case(rng):
+    """always present: two splices with unreferenced lead-in fibre upstream of both, unreferenced fibre between and after them
+    (alpha there comes from calc_alpha_double, with both directions' accumulated splice losses)"""
+    a0 = rng.randint(2, 4)
+    nx = a0 + rng.randint(17, 20)
+    layout = dict(ref_blocks=[(a0, a0 + 2, 0), (a0 + 6, a0 + 8, 1), (a0 + 12, a0 + 14, 0)], match_blocks=[],
+                  trans_idx=[(a0 + 4, False), (a0 + 10, True)])
+    return fibre.make_case(rng, double=True, nx=nx, nt=rng.randint(1, 3), layout=layout)
+
+
 def batch(ctx, n, tagged_every):
     for k in range(n):
-        c = gen(ctx, ctx.rng)
+        c = lead_in_case(ctx.rng) if k == 0 else gen(ctx, ctx.rng)
         run_one(ctx, c)
         if k % tagged_every == 0:
             tagged_positions(ctx, c)
